@@ -32,6 +32,10 @@ def measures(block, push0, states):
 def cmp_vec(a, b):
     """(no_worse, strictly_better, equal) of b relative to a, pointwise over the states both ran on."""
     pairs = [(x, y) for x, y in zip(a, b) if x is not None and y is not None]
+    if not pairs:
+        # no state of the domain can run the input block at all (e.g. an environment value used as a memory
+        # address): there is no execution whose gas could get worse
+        return True, True, False
     no_worse = all(y <= x for x, y in pairs)
     better = no_worse and any(y < x for x, y in pairs)
     equal = all(y == x for x, y in pairs)
@@ -49,7 +53,7 @@ def judge(block, out, cfg, push0):
     if not rel[crit][0]:
         if crit == "gas":
             k = next(i for i, (x, y) in enumerate(zip(g0, g1)) if x is not None and y is not None and y > x)
-            info["state"] = states[k].key()
+            info["state"] = states[k].key() if k < len(states) else "static part"
             info["gas"] = [g0[k], g1[k]]
         return "costlier-in-criterion", info
     if rel[crit][1]:
